@@ -22,6 +22,7 @@ structure Build where
   chains : List (Key × Chain) := []
   spaceKeys : List Key := []
   box : Option (Rat × Rat) := some (0, 1)
+  boxv : Option (List (Rat × Rat)) := none
   allocs : List (List Rat) := []
   asWeights : Bool := true
   fractional : Bool := true
@@ -38,7 +39,10 @@ def Build.cfg (b : Build) : EnvCfg Rat :=
     tx := { timesteps := b.grid, events := b.events, latency := b.latency, markov := b.markov, warmup := b.warmup }
     delay := b.delay
     space := { keys := b.spaceKeys
-               kind := match b.box with | some (lo, hi) => .box lo hi | none => .disc b.allocs
+               kind := match b.boxv, b.box with
+                 | some bs, _ => .boxv bs
+                 | none, some (lo, hi) => .box lo hi
+                 | none, none => .disc b.allocs
                asWeights := b.asWeights, fractional := b.fractional, margin := b.margin }
     reward := b.reward
     episodeLen := b.eplen }
@@ -154,12 +158,24 @@ def step (s : St) (ws : List String) : St × String :=
   | "space" :: "box" :: lo :: hi :: aw :: fr :: mg :: keys =>
       match parseRat? lo, parseRat? hi, parseBool aw, parseBool fr, parseRat? mg with
       | some lo, some hi, some aw, some fr, some mg =>
-          upd s fun b => { b with box := some (lo, hi), asWeights := aw, fractional := fr, margin := mg, spaceKeys := keys }
+          upd s fun b => { b with box := some (lo, hi), boxv := none, asWeights := aw, fractional := fr, margin := mg, spaceKeys := keys }
       | _, _, _, _, _ => (s, "bad-op")
+  | "space" :: "boxv" :: aw :: fr :: mg :: n :: rest =>
+      -- `n` bounds `lo:hi` (one per contract), then the contracts
+      match parseBool aw, parseBool fr, parseRat? mg, n.toNat? with
+      | some aw, some fr, some mg, some n =>
+          let bs := (rest.take n).filterMap fun c =>
+            match c.splitOn ":" with
+            | [lo, hi] => (parseRat? lo).bind fun lo => (parseRat? hi).map fun hi => (lo, hi)
+            | _ => none
+          if bs.length ≠ n then (s, "bad-op") else
+          upd s fun b => { b with box := none, boxv := some bs, asWeights := aw, fractional := fr, margin := mg,
+                                  spaceKeys := rest.drop n }
+      | _, _, _, _ => (s, "bad-op")
   | "space" :: "disc" :: aw :: fr :: keys =>
       match parseBool aw, parseBool fr with
       | some aw, some fr =>
-          upd s fun b => { b with box := none, asWeights := aw, fractional := fr, margin := 0, spaceKeys := keys, allocs := [] }
+          upd s fun b => { b with box := none, boxv := none, asWeights := aw, fractional := fr, margin := 0, spaceKeys := keys, allocs := [] }
       | _, _ => (s, "bad-op")
   | "alloc" :: vs =>
       match parseRats vs with
